@@ -151,7 +151,7 @@ def build(seed, i, tier):
     threading = rs.random() < 0.5
     if not mode.startswith("unserialisable") and not (wc or threading):
         wc = True
-    cfg = {"prop": ID, "family": fam, "wc": wc, "threading": threading, "oracles": [], "uuid_seed": rs.getrandbits(32), "mode": mode,
+    cfg = {"prop": ID, "family": fam, "wc": wc, "threading": threading, "threading_ctor": threading if rs.random() < 0.7 else (not threading), "oracles": [], "uuid_seed": rs.getrandbits(32), "mode": mode,
            "strategy": ns.families[fam]["strategy"], "kinds": [G.pick(rs, ["dict", "list"]) for _ in range(4)],
            "nres": 1 if mode in ("unbuffered", "unserialisable-flush") else rs.choice([1, 2, 3, 4]), "big": rs.random() < 0.25}
     return cfg
@@ -161,7 +161,9 @@ def scenario(cfg, seed, i, kill_at=None, want_states=False):
     """Executed in a forked child. Returns a result dict."""
     ns = lib.load()
     rg = stream(seed, ID, i, "gen")
-    w = World(cfg)
+    # objects may be constructed while threading support is in the OTHER state than at save time (the write mode in
+    # effect at the save decides)
+    w = World(dict(cfg, threading=cfg.get("threading_ctor", cfg["threading"])))
     try:
         fresh = w.fresh
         # ---- setup: files with old content, one object each, a few ordinary ops ----
@@ -176,6 +178,11 @@ def scenario(cfg, seed, i, kill_at=None, want_states=False):
             w.step({"t": "new_res", "family": cfg["family"], "kind": cfg["kinds"][r], "init": init})
         for r in range(cfg["nres"]):
             w.step({"t": "new_obj", "rid": r, "wc": cfg["wc"]})
+        if cfg.get("threading_ctor", cfg["threading"]) != cfg["threading"]:
+            for fam_ in ns.json_families:
+                for k_ in ("d", "l"):
+                    c_ = ns.families[fam_][k_]
+                    (c_.enable_multithreading if cfg["threading"] else c_.disable_multithreading)()
         for _ in range(rg.randint(0, 3)):
             h = G.pick(rg, G.attached_handles(w))
             st = G.gen_navigate_step(rg, w, h) if rg.random() < 0.4 else None
